@@ -1,27 +1,27 @@
 //! Which engines, with how many cases, decide each property at each tier.
 
 use rt::run::{Job, Plan, Tier};
-use rt::tok::{Tok1, Tok16, Tok64, Tok8, TokZ};
+use hist::{sched_engine, sized_engine, thin_engine};
+use mx::MatrixEngine;
 
-use crate::hist_sized::SizedEngine;
-use crate::sched::SchedEngine;
-use crate::hist_thin::ThinEngine;
-use rt::tok::{Tok4, Tok8b};
 use crate::FLAVOUR;
 
 fn job<E: rt::run::Engine + 'static>(e: E, cases: u64, flavour: &'static str) -> Job {
     Job { engine: Box::new(e), cases, flavour }
+}
+fn jobb(e: Box<dyn rt::run::Engine>, cases: u64, flavour: &'static str) -> Job {
+    Job { engine: e, cases, flavour }
 }
 
 /// the sized-world engines over all payload shapes, for both flavours
 fn sized_jobs(prop: &str, max_ops: usize, cases: u64, flavours: &[&'static str]) -> Vec<Job> {
     let mut v = vec![];
     for fl in flavours {
-        v.push(job(SizedEngine::<Tok8>::new(prop, max_ops), cases, fl));
-        v.push(job(SizedEngine::<Tok1>::new(prop, max_ops), cases / 2, fl));
-        v.push(job(SizedEngine::<Tok16>::new(prop, max_ops), cases / 2, fl));
-        v.push(job(SizedEngine::<Tok64>::new(prop, max_ops), cases / 4, fl));
-        v.push(job(SizedEngine::<TokZ<0>>::new(prop, max_ops), cases / 4, fl));
+        v.push(jobb(sized_engine("tok8", prop, max_ops), cases, fl));
+        v.push(jobb(sized_engine("tok1", prop, max_ops), cases / 2, fl));
+        v.push(jobb(sized_engine("tok16", prop, max_ops), cases / 2, fl));
+        v.push(jobb(sized_engine("tok64", prop, max_ops), cases / 4, fl));
+        v.push(jobb(sized_engine("tokz", prop, max_ops), cases / 4, fl));
     }
     v
 }
@@ -30,10 +30,10 @@ fn sized_jobs(prop: &str, max_ops: usize, cases: u64, flavours: &[&'static str])
 fn thin_jobs(prop: &'static str, max_ops: usize, cases: u64, flavours: &[&'static str]) -> Vec<Job> {
     let mut v = vec![];
     for fl in flavours {
-        v.push(job(ThinEngine::<Tok8b, Tok8>::new(prop, max_ops), cases, fl));
-        v.push(job(ThinEngine::<Tok1, Tok16>::new(prop, max_ops), cases / 2, fl));
-        v.push(job(ThinEngine::<Tok16, Tok1>::new(prop, max_ops), cases / 2, fl));
-        v.push(job(ThinEngine::<Tok4, Tok4>::new(prop, max_ops), cases / 2, fl));
+        v.push(jobb(thin_engine("8b/8", prop, max_ops), cases, fl));
+        v.push(jobb(thin_engine("1/16", prop, max_ops), cases / 2, fl));
+        v.push(jobb(thin_engine("16/1", prop, max_ops), cases / 2, fl));
+        v.push(jobb(thin_engine("4/4", prop, max_ops), cases / 2, fl));
     }
     v
 }
@@ -72,9 +72,9 @@ pub fn plan(prop: &str, tier: Tier) -> Option<Plan> {
                 "2-4 threads, <=8 ops per thread".into(),
             ],
             vec![
-                job(SchedEngine::<Tok8>::new("C02", 24), if q { 60_000 } else { 3_000_000 }, "all"),
-                job(SchedEngine::<Tok16>::new("C02", 24), if q { 12_000 } else { 500_000 }, "all"),
-                job(SchedEngine::<Tok8>::new("C02", 24), if q { 12_000 } else { 500_000 }, "nostd"),
+                jobb(sched_engine("tok8", "C02", 24), if q { 60_000 } else { 3_000_000 }, "all"),
+                jobb(sched_engine("tok16", "C02", 24), if q { 12_000 } else { 500_000 }, "all"),
+                jobb(sched_engine("tok8", "C02", 24), if q { 12_000 } else { 500_000 }, "nostd"),
             ],
         ),
         "C03" => (
@@ -84,8 +84,8 @@ pub fn plan(prop: &str, tier: Tier) -> Option<Plan> {
             {
                 let mut v = sized_jobs("C03", if q { 48 } else { 128 }, if q { 6000 } else { 100_000 }, both);
                 v.extend(thin_jobs("C03", if q { 40 } else { 128 }, if q { 3000 } else { 60_000 }, both));
-                v.push(job(SchedEngine::<Tok8>::new("C03", 24), if q { 50_000 } else { 2_000_000 }, "all"));
-                v.push(job(SchedEngine::<Tok8>::new("C03", 24), if q { 10_000 } else { 300_000 }, "nostd"));
+                v.push(jobb(sched_engine("tok8", "C03", 24), if q { 50_000 } else { 2_000_000 }, "all"));
+                v.push(jobb(sched_engine("tok8", "C03", 24), if q { 10_000 } else { 300_000 }, "nostd"));
                 v
             },
         ),
@@ -95,8 +95,8 @@ pub fn plan(prop: &str, tier: Tier) -> Option<Plan> {
             vec!["schedule part: sampled schedules under the operational memory model of DESIGN.md section 4.4".into()],
             {
                 let mut v = sized_jobs("C08", if q { 48 } else { 128 }, if q { 6000 } else { 100_000 }, both);
-                v.push(job(SchedEngine::<Tok8>::new("C08", 24), if q { 50_000 } else { 1_500_000 }, "all"));
-                v.push(job(SchedEngine::<Tok8>::new("C08", 24), if q { 10_000 } else { 300_000 }, "nostd"));
+                v.push(jobb(sched_engine("tok8", "C08", 24), if q { 50_000 } else { 1_500_000 }, "all"));
+                v.push(jobb(sched_engine("tok8", "C08", 24), if q { 10_000 } else { 300_000 }, "nostd"));
                 v
             },
         ),
@@ -106,8 +106,8 @@ pub fn plan(prop: &str, tier: Tier) -> Option<Plan> {
             vec!["schedule part: sampled schedules under the operational memory model of DESIGN.md section 4.4".into()],
             {
                 let mut v = sized_jobs("C09", if q { 48 } else { 128 }, if q { 6000 } else { 100_000 }, both);
-                v.push(job(SchedEngine::<Tok8>::new("C09", 24), if q { 50_000 } else { 1_500_000 }, "all"));
-                v.push(job(SchedEngine::<Tok8>::new("C09", 24), if q { 10_000 } else { 300_000 }, "nostd"));
+                v.push(jobb(sched_engine("tok8", "C09", 24), if q { 50_000 } else { 1_500_000 }, "all"));
+                v.push(jobb(sched_engine("tok8", "C09", 24), if q { 10_000 } else { 300_000 }, "nostd"));
                 v
             },
         ),
@@ -116,6 +116,33 @@ pub fn plan(prop: &str, tier: Tier) -> Option<Plan> {
             "proptest-generated histories over ThinArc<H,T> and every fat / protected / raw / unique / arc-swap view of the same allocations (header Tok + 0..8 element Toks; header alignment <, =, > element alignment), including fat Arcs whose recorded length is wrong (true+1, true-1, 0, true+1000, usize::MAX) fed to into_thin, and with_arc_mut callbacks that mutate, replace by a fresh Arc, swap with an existing one, or panic before/after replacing. After every step every slot is read element by element and compared (values, identities, addresses, recorded length, count, heap_ptr) with the model. Non-trivial: a thin and a fat/protected handle to one allocation of length >=2 compared element-wise, or an into_thin with a wrong recorded length, or a with_arc_mut that replaced the Arc.".into(),
             vec!["element/header types are Tok witnesses; ZST elements are refused by the constructors (C06)".into()],
             thin_jobs("C10", if q { 40 } else { 128 }, if q { 8000 } else { 150_000 }, both),
+        ),
+        "C05" => (
+            "exploration",
+            "proptest-generated points of a static matrix: 8 header shapes x 12 element shapes (size 0..64, alignment 1..64, incl. zero-sized, padded and over-aligned) x length in {0,1,2,3,4,5,7,8,9,15,16,17,31,40} x constructor (new, From<T>, From<Box>, Default, UniqueArc::new, new_uninit+write, from_header_and_iter/vec/slice, from_header_and_uninit_slice, ThinArc forms, From<Vec>/&[T], collect exact/inexact, new_uninit_slice) x extra clones x release path (drop as Arc / OffsetArc / ArcUnion first / second / UniqueArc, after from_raw, after a dyn cast, after unsizing, after header erasure, try_unwrap, into_inner, RefCnt). Observed oracle: heap_ptr = block start, block alignment >= max(8, align_of_val), value address aligned, value behind the count word and inside the block, red zones intact, dealloc layout == alloc layout (checked by the tracking allocator), exactly one free, nothing left. Non-trivial: a header or element that is over-aligned (>8), zero-sized or padded, released through a path other than dropping the constructing handle.".into(),
+            vec!["8 x 12 sampled shapes rather than every size 0..64 x alignment 1..64".into(), "overflow-adjacent lengths are exercised in child processes (see the C05 overflow job)".into()],
+            vec![job(MatrixEngine::new("C05"), if q { 60_000 } else { 2_000_000 }, "all"), job(MatrixEngine::new("C05"), if q { 20_000 } else { 600_000 }, "nostd")],
+        ),
+        "C11" => (
+            "exploration",
+            "(a) matrix: payload shape x handle kind x into/from pairing (into_raw/from_raw, as_ptr, from_raw_slice, into_raw_offset/from_raw_offset, ThinArc::into_raw/from_raw/ptr/heap_ptr, ArcBorrow::from_ptr, cast to *const dyn then from_raw, unsize coercion, arc-swap RefCnt) with clones and moves in between: as_ptr == Deref address == into_raw, heap_ptr == allocator block start, the round trip recovers the same block, contents and count, every handle type is one word (two for slice/dyn) with the Option niche, OffsetArc/ArcBorrow bit pattern == value address; (b) histories ('pointers' weight table) checking address stability across every conversion, clone and move. Non-trivial: over-aligned / zero-sized / padded / unsized payload with a clone or a different release path between into and from; in histories a raw round trip on an allocation that had >=3 handle kinds.".into(),
+            vec!["ThinArc::into_raw/as_ptr are the block start by design (opaque c_void); the Deref-address clause is checked on the fat view".into()],
+            {
+                let mut v = vec![job(MatrixEngine::new("C11"), if q { 50_000 } else { 1_500_000 }, "all"), job(MatrixEngine::new("C11"), if q { 15_000 } else { 400_000 }, "nostd")];
+                v.extend(sized_jobs("C11", if q { 40 } else { 128 }, if q { 3000 } else { 60_000 }, both));
+                v.extend(thin_jobs("C11", if q { 40 } else { 128 }, if q { 2000 } else { 40_000 }, both));
+                v
+            },
+        ),
+        "C12" => (
+            "exploration",
+            "(a) matrix: every ordered pair (A,B) of the 8 x 12 shapes, both constructors, histories of <=24 ops (clone union, drop union, as_first/as_second().clone_arc(), drop plain Arcs, compare, ptr_eq, move) with after every op: is_first/is_second/as_first/as_second/borrow agree with the constructor, borrow address == the original Arc::as_ptr with the low bit clear, ArcUnion::strong_count == owners, plain Arcs to both allocations intact; unions of different variants never ==; one word + Option niche; right layout on the final free (tracking allocator); (b) sized-world histories with ArcUnion<P,Alt> / ArcUnion<Alt,P> handles among all other kinds (the right Tok type's destructor runs: the Tok magic is per type). Non-trivial: second variant, or A and B of equal layout, or byte-aligned / zero-sized payload, with >=1 union clone and a union as the last owner.".into(),
+            vec!["shapes are sampled".into()],
+            {
+                let mut v = vec![job(MatrixEngine::new("C12"), if q { 40_000 } else { 1_000_000 }, "all"), job(MatrixEngine::new("C12"), if q { 10_000 } else { 300_000 }, "nostd")];
+                v.extend(sized_jobs("C12", if q { 40 } else { 128 }, if q { 3000 } else { 60_000 }, both));
+                v
+            },
         ),
         _ => return None,
     };
